@@ -116,6 +116,80 @@ def _res_map_err(eng, st, fr, t, args, dest, target):
     return v if v[0] == 'enum' else OK(payload(eng, st, v, 'Ok'))
 
 
+@model('std::result::Result::<T, E>::or')
+def _res_or(eng, st, fr, t, args, dest, target):
+    vn, v = variant_of(eng, st, args[0], RES)
+    if vn == 'Ok':
+        return v if v[0] == 'enum' else OK(payload(eng, st, v, 'Ok'))
+    return args[1]
+
+
+@model('std::result::Result::<T, E>::and')
+def _res_and(eng, st, fr, t, args, dest, target):
+    vn, v = variant_of(eng, st, args[0], RES)
+    if vn == 'Ok':
+        return args[1]
+    return v if v[0] == 'enum' else ERR(payload(eng, st, v, 'Err'))
+
+
+@model('std::ops::Range::<Idx>::contains')
+def _range_contains(eng, st, fr, t, args, dest, target):
+    r = deref(eng, st, args[0])
+    x = deref(eng, st, args[1])
+    return ('app', 'std::ops::Range::<Idx>::contains', (eng.purify(st, r), eng.purify(st, x)))
+
+
+def deep_eq(eng, st, a, b):
+    """boolean term for the derived `==` of two values (enums / structs of scalars)"""
+    a, b = eng.force(st, a), eng.force(st, b)
+    if a[0] == 'enum' and b[0] == 'enum':
+        if a[1] != b[1] or a[3] != b[3] or len(a[4]) != len(b[4]):
+            return FALSE
+        out = TRUE
+        for x, y in zip(reversed(a[4]), reversed(b[4])):
+            c = deep_eq(eng, st, x, y)
+            out = c if out == TRUE else ite(c, out, FALSE)
+        return out
+    if is_const(a) and is_const(b):
+        return TRUE if cval(a) == cval(b) else FALSE
+    return eng.binop(st, 'Eq', a, b)
+
+
+@model('core::slice::<impl [T]>::contains', 'std::slice::<impl [T]>::contains')
+def _slice_contains(eng, st, fr, t, args, dest, target):
+    seq = deref(eng, st, args[0])
+    x = deref(eng, st, args[1])
+    if seq[0] not in ('array', 'vec'):
+        return ('app', 'slice_contains', (eng.purify(st, seq), eng.purify(st, x)))
+    xv = eng.force(st, x)
+    items = [eng.force(st, e) for e in seq[1]]
+    if items and all(e[0] == 'enum' for e in items) and xv[0] != 'enum':
+        # decide the variant of the needle first (forks over the variants of its type)
+        adt = items[0][1]
+        vn, xv = variant_of_adt(eng, st, xv, adt)
+    out = FALSE
+    for e in reversed(items):
+        c = deep_eq(eng, st, e, xv)
+        out = c if out == FALSE else ite(c, TRUE, out)
+    return out
+
+
+def variant_of_adt(eng, st, v, adt):
+    """concrete-variant view of a value of a local enum type (forks on a free discriminant)"""
+    v = eng.force(st, v)
+    if v[0] == 'enum':
+        return v[2], v
+    a = eng.facts.adts.get(adt)
+    if not a:
+        raise Unmodelled('variant of an unknown type')
+    d = eng.decide_int(st, eng.discr_of(st, v, adt), [int(x['discr']) for x in a['variants']])
+    for i, var in enumerate(a['variants']):
+        if int(var['discr']) == d:
+            fields = tuple(('field', ('as', eng.purify(st, v), var['name']), f.get('name') or str(j)) for j, f in enumerate(var['fields']))
+            return var['name'], mk_enum(adt, var['name'], i, fields)
+    raise Unmodelled('discriminant without a variant')
+
+
 @model('std::result::Result::<T, E>::and_then')
 def _res_and_then(eng, st, fr, t, args, dest, target):
     vn, v = variant_of(eng, st, args[0], RES)
